@@ -461,6 +461,85 @@ def clause_digit_text(facts, rep):
     rep.require(n >= 3, "C07: '0' + x character computations found in ftoa.h: %d (>= 3 expected)" % n)
 
 
+def clause_format(facts, rep, tier):
+    """the formatting stage of F64toa, evaluated with a byte memory (sv/minterp.py): F64toa is interpreted with the
+    double-to-decimal conversion replaced by a chosen shortest decimal (sig x 10^exp) for both signs, every digit
+    count 1..17, three digit patterns and every decimal-point position in and around the fixed-notation window plus
+    exponent-notation samples over the whole range.  Obligations: every store lands inside the 32 bytes the callers
+    reserve, the returned length is within them, and the text is a JSON number whose exact value is sig x 10^exp."""
+    from ..minterp import Interp, Unsupported, UndefinedBehaviour
+    from fractions import Fraction
+    import re as _re
+    fs = [f for f in facts.functions if f.qn == NS + 'F64toa']
+    rep.require(len(fs) == 1, 'C07: F64toa not found')
+    NUM = _re.compile(r'^-?(0|[1-9][0-9]*)(\.[0-9]+)?([eE][+-]?[0-9]+)?$')
+    for f in fs:
+        rep.fn(f)
+        base = 0x1000
+        bad = None
+        n = 0
+        exps_sci = [-343, -325, -324, -323, -200, -101, -100, -99, -30, 30, 99, 100, 101, 200, 291, 292, 308]
+        try:
+            for neg in (0, 1):
+                raw = (neg << 63) | (0x3FF << 52) | (1 << 51)          # +-1.5: finite, not an integer
+                for cnt in range(1, 18):
+                    pats = sorted(set([int('9' * cnt), int(('12' * 9)[:cnt])] + ([int('1' * cnt), int('1' + '0' * (cnt - 1))] if tier == 'thorough' else [])))
+                    pats = [p_ for p_ in pats if len(str(p_)) == cnt]
+                    exps = sorted(set([d - cnt for d in range(-9, 26)] + exps_sci))
+                    for sig in pats:
+                        for ex in exps:
+                            if not -343 <= ex <= 308:
+                                continue
+
+                            def hook(e, args, env, members, sig=sig, ex=ex):
+                                if e.get('cname') == 'F64ToRaw':
+                                    return raw
+                                if e.get('cname') == 'F64ToDecimal':
+                                    return {'sig': sig, 'exp': ex}
+                                if e.get('cname') == 'U64toa' and len(args) == 2 and isinstance(args[0], int):
+                                    # the integer writer has its own rules (C08): its contract - the decimal digits at the position, end returned
+                                    ds = str(args[1]).encode()
+                                    for j_, ch_ in enumerate(ds):
+                                        holder[0].write(args[0] + j_, 1, ch_, ' (integer writer)')
+                                    return args[0] + len(ds)
+                                return None
+                            holder = [None]
+                            it = Interp(f, facts, call_hook=hook, max_steps=200000)
+                            holder[0] = it
+                            it.memory = {base + i: 0xAA for i in range(32)}
+                            it.writable = [(base, base + 32)]
+                            it.written = set()
+                            try:
+                                r = it.run({f.params[0]['id']: base, f.params[1]['id']: 0}, {})[0]
+                            except UndefinedBehaviour as ux:
+                                bad = '%s%d x 10^%d: %s' % ('-' if neg else '', sig, ex, ux)
+                                break
+                            n += 1
+                            if not isinstance(r, int) or not 1 <= r <= 32:
+                                bad = '%s%d x 10^%d: returned length %s' % ('-' if neg else '', sig, ex, r)
+                                break
+                            txt = bytes(it.memory[base + i] for i in range(r)).decode('latin-1')
+                            okv = False
+                            if NUM.match(txt) and ('.' in txt or 'e' in txt or 'E' in txt):
+                                m_ = _re.match(r'^(-?)([0-9]+)(?:\.([0-9]+))?(?:[eE]([+-]?[0-9]+))?$', txt)
+                                ip, fp, ep = m_.group(2), m_.group(3) or '', int(m_.group(4) or 0)
+                                val = Fraction(int(ip + fp)) * Fraction(10) ** (ep - len(fp))
+                                okv = val == Fraction(sig) * Fraction(10) ** ex and (m_.group(1) == '-') == bool(neg)
+                            if not okv:
+                                bad = '%s%d x 10^%d is printed as %r' % ('-' if neg else '', sig, ex, txt)
+                                break
+                        if bad:
+                            break
+                    if bad:
+                        break
+                if bad:
+                    break
+        except Unsupported as ex_:
+            raise AnalysisBroken('C07: the formatting stage of F64toa cannot be evaluated: %s' % ex_)
+        rep.extra['format_evaluations'] = rep.extra.get('format_evaluations', 0) + n
+        rep.check(bad is None, 'E5.format', f.qn, 'every store inside the 32-byte number buffer, text == sig x 10^exp as a JSON number (%d evaluations)' % n, f.loc, bad or '', facts.config)
+
+
 def run(rep, tier):
     configs = ['K1'] if tier == 'quick' else ['K1', 'K3', 'K7']
     for cfg in configs:
@@ -473,6 +552,7 @@ def run(rep, tier):
         clause_f(facts, rep)
         clause_g(facts, rep)
         clause_digit_text(facts, rep)
+        clause_format(facts, rep, tier)
         from .. import narrowing
         narrowing.check(facts, rep, 'E3.lossless-narrowing', ('ftoa.h',), bounds={('FormatSignificand', 'sig'): 10 ** 17}, min_sites=2)
     rep.trust('clang 14 front end and constant evaluator', 'Python big integers / fractions',
